@@ -104,6 +104,7 @@ def check_c18(rep, tier):
     if res.error or not cases or not hosts:
         rep.machinery_failure("TLC export failed for match: " + str(res.error))
         return
+    hosts, host_lists = hosts["hosts"], hosts["lists"]
     rng = random.Random(seed())
     real_hosts = [
         specs.HostSpecification(
@@ -112,6 +113,33 @@ def check_c18(rep, tier):
             max_duration=h["maxdur"], min_gpu=h["mingpu"])
         for h in hosts
     ]
+    def real_host(h):
+        return specs.HostSpecification(
+            cuda=[specs.CudaSpecification(memory=g["mem"] * G, min_memory=g["minmem"] * G) for g in h["gpus"]],
+            cpu=specs.CPUSpecification(memory=h["mem"] * G, cores=h["cores"]), max_duration=h["maxdur"], min_gpu=h["mingpu"])
+
+    # LauncherRegistry.find with a launchers.py whose find_launcher tries a list of hosts in order
+    import tempfile
+    import shutil
+
+    from experimaestro.connectors.local import LocalConnector
+    from experimaestro.launcherfinder.registry import LauncherRegistry
+    from experimaestro.launchers.direct import DirectLauncher
+
+    regdir = Path(tempfile.mkdtemp(prefix="xvreg-", dir=str(tlc.workdir("reg"))))
+    (regdir / "launchers.py").write_text(
+        "HOSTS = []\nMADE = {}\n"
+        "def find_launcher(spec, tags):\n"
+        "    for k, (host, launcher) in enumerate(HOSTS):\n"
+        "        if spec.match(host) is not None:\n"
+        "            MADE['last'] = (spec, k)\n"
+        "            return launcher\n"
+        "    return None\n")
+    registry = LauncherRegistry(regdir)
+    import sys as _sys
+
+    conf = _sys.modules.get("xpm_launchers_conf") or registry.find_launcher_fn.__globals__
+    G_ = registry.find_launcher_fn.__globals__
     nontrivial = 0
     for ci, c in enumerate(cases):
         payload = {"case": c}
@@ -155,8 +183,30 @@ def check_c18(rep, tier):
                               {"case": c, "host": hosts[hi]})
             if want:
                 nontrivial += 1
+        if len(reqs) > 1 or ci % 7 == 0:
+            for li, (hl, want) in enumerate(zip(host_lists, c["find"])):
+                rep.cov["evaluations"] += 1
+                launchers = [DirectLauncher(LocalConnector.instance()) for _ in hl]
+                G_["HOSTS"][:] = [(real_host(h), l) for h, l in zip(hl, launchers)]
+                G_["MADE"].clear()
+                try:
+                    got_l = registry.find(*reqs)
+                except Exception as ex:
+                    rep.violation("C18/find/exception", f"case {ci}: LauncherRegistry.find raised {ex!r}", payload)
+                    break
+                if got_l is None:
+                    got = [0, 0]
+                else:
+                    spec_used, k = G_["MADE"]["last"]
+                    got = [1 + next((i for i, r in enumerate(reqs) if r is spec_used), -1), k + 1]
+                    if launchers[k] is not got_l:
+                        got = [-1, -1]
+                if got != list(want):
+                    rep.violation("C18/find/order", f"case {ci}: find() over hosts {hl} answers (alternative, host) = {got}, the specification says {list(want)} "
+                                  "(alternatives are tried in the order given)", payload)
         if len(rep.cov["samples"]) < 2:
             rep.sample({"request": c["norm"], "text": texts, "matches_on_hosts": sum(1 for x in c["res"] if x)})
+    shutil.rmtree(regdir.parent, ignore_errors=True)
     rep.cov["traces_validated_against_impl"] += len(cases)
     rep.cov["distinct_nontrivial"] += nontrivial
     rep.cov["exhaustive"] = True
